@@ -20,6 +20,7 @@ theorem inv_step {s s' : State} {op : Op} (hi : Inv s) (h : step s op = .ok s') 
   | lay l a => exact inv_lay hi h
   | mlay a l kind dt fill => exact inv_mlay hi h
   | ldrop l => exact inv_ldrop hi h
+  | mk a kind dt it n v => exact inv_mk hi h
 
 theorem inv_run {ops : List Op} {s s' : State} (hi : Inv s) (h : run s ops = .ok s') : Inv s' := by
   induction ops generalizing s with
